@@ -60,7 +60,7 @@ def assets(name):
 
 
 COST_ASSETS = ["contract", "contract_spread", "take", "storage", "storage_sep", "storage_nosimult", "storage_maxdur", "storage_blocks", "transport", "transport_costs", "ext_transport", "multicommodity",
-               "plant", "chp_fuel", "chp_min_load", "orderbook", "scaled", "structured", "periodic", "coarse"]
+               "plant", "chp_fuel", "chp_min_load", "orderbook", "scaled", "structured", "linked", "periodic", "coarse"]
 
 
 def cost_asset(kind, win, T):
@@ -91,6 +91,10 @@ def cost_asset(kind, win, T):
          "structured": dict(type="StructuredAsset", name="x", nodes=["n1"],
                             portfolio=[dict(type="Storage", name="isto", nodes=["ni"], size=20.0, cap_in=1.0, cap_out=1.0, price="q", cost_in=0.1),
                                        dict(type="Transport", name="itr", nodes=["ni", "n1"], min_cap=0.0, max_cap=2.0, costs_const=0.05)]),
+         "linked": dict(type="LinkedAsset", name="x", nodes=["n1"], asset1_variable=["lp2", "disp", "n1"], asset2_variable=["lp1", "bool_on", None],
+                        asset2_time_already_running=0, time_back=6.0, time_forward=0,
+                        portfolio=[dict(type="Plant", name="lp1", nodes=["n1"], price="q", min_cap=1.0, max_cap=4.0, start_costs=2.0),
+                                   dict(type="Plant", name="lp2", nodes=["n1"], price="q", min_cap=1.0, max_cap=3.0)]),
          "periodic": dict(type="SimpleContract", name="x", nodes=["n1"], price="q", min_cap=-2.0, max_cap=3.0, periodicity="12h"),
          "coarse": dict(type="SimpleContract", name="x", nodes=["n1"], price="q", min_cap=-2.0, max_cap=3.0, extra_costs=0.1, freq="12h")}[kind]
     tgt = a["base_asset"] if kind == "scaled" else a
